@@ -33,6 +33,17 @@ def pool(ctx):
     # a program that fails (diagnosed) and one with EQU chains
     ps.append([{"k": "org", "v": 0x7c00}, {"k": "ins", "mn": "MOV", "ops": [{"t": "r", "w": 16, "n": 0}, {"t": "l", "nm": "nowhere_at_all", "add": 0}]}, {"k": "ins", "mn": "HLT", "ops": []}])
     ps.append(progs.complete(c16[2], org=0, bits=16))
+    # the SAME statements under both modes (their sizes differ by mode), with labels after them that are referenced:
+    # anything remembered per instruction text across assemblies shows up here
+    both = []
+    for j, (w, n) in enumerate([(32, 1), (16, 3), (32, 0), (16, 6), (32, 7)]):
+        both.append({"k": "ins", "mn": "MOV", "ops": [{"t": "r", "w": w, "n": n}, {"t": "i", "v": 4660 + j, "sty": "h"}]})
+        both.append({"k": "ins", "mn": "ADD", "ops": [{"t": "r", "w": w, "n": n}, {"t": "i", "v": 1000, "sty": "d"}]})
+        both.append({"k": "label", "nm": "m%d" % j})
+        both.append({"k": "br", "mn": "JMP", "tgt": {"t": "l", "nm": "m%d" % j, "add": 0}})
+        both.append({"k": "ins", "mn": "MOV", "ops": [{"t": "r", "w": 16, "n": 6}, {"t": "l", "nm": "m%d" % j, "add": 0}]})
+    ps.append([{"k": "org", "v": 0x7c00}] + both)
+    ps.append([{"k": "org", "v": 0x7c00}, {"k": "bits", "v": 32}] + both)
     return ps
 
 
